@@ -273,9 +273,46 @@ func driveFit(t *Tracer, r Rng, k int) {
 	}
 }
 
+// driveRoundRadii: the way the query is used in practice - one segment (often a vertical climb or a
+// level leg over whole-metre way points) asked with several whole-number clearances in a row,
+// including 0; every answer must stand on its own whatever was asked before.
+func driveRoundRadii(t *Tracer, r Rng, k int) {
+	for i := 0; i < k; i++ {
+		H := r.In(19, 24)
+		V := r.In(20, 25)
+		lon := float64(r.In(-179000000, 179000000)) / 1e6
+		lat := float64(r.In(-70000000, 70000000)) / 1e6
+		alt0 := float64(r.In(0, 40))
+		var lon1, lat1, alt1 float64
+		switch r.Intn(3) {
+		case 0: // vertical climb
+			lon1, lat1, alt1 = lon, lat, alt0+float64(r.In(5, 100))
+		case 1: // level leg
+			lon1, lat1, alt1 = lon+float64(r.In(-200, 200))/1e6, lat+float64(r.In(-200, 200))/1e6, alt0
+		default:
+			lon1, lat1, alt1 = lon+float64(r.In(-100, 100))/1e6, lat+float64(r.In(-100, 100))/1e6, alt0+float64(r.In(-20, 60))
+		}
+		width := 2 * math.Pi * 6378137 * math.Cos(lat*math.Pi/180) / math.Ldexp(1, int(H))
+		radii := []float64{10, 0, 5, 12.5, 2.5, 20, 1, 100, 50, 2, 0.5}
+		r.Shuffle(len(radii), func(a, b int) { radii[a], radii[b] = radii[b], radii[a] })
+		asked := 0
+		for _, rad := range radii {
+			if rad > 3*width || asked == 4 {
+				continue
+			}
+			evCorridor(t, lon, lat, alt0, lon1, lat1, alt1, rad, H, V)
+			asked++
+		}
+		if r.Chance(0.5) {
+			evCorridor(t, lon, lat, alt0, lon1, lat1, alt1, 0, H, V)
+		}
+	}
+}
+
 func driveCorridor(t *Tracer, r Rng, n int) {
 	if n >= 20 {
 		driveFit(t, r, n/4)
+		driveRoundRadii(t, r, n/20)
 	}
 	for i := 0; i < n; i++ {
 		if i%25 == 24 {
